@@ -219,7 +219,10 @@ fn sweep_case(kind: Kind, n: usize, s: usize, reset_phase: usize) -> Case {
 
 /// `clone_at`: the call index after which the instance is replaced by its clone (and serialized)
 fn sweep_case_clone(kind: Kind, n: usize, s: usize, reset_phase: usize, clone_at: usize) -> Case {
-    let calls = 3 * n + 3;
+    sweep_case_calls(kind, n, s, reset_phase, clone_at, 3 * n + 3)
+}
+
+fn sweep_case_calls(kind: Kind, n: usize, s: usize, reset_phase: usize, clone_at: usize, calls: usize) -> Case {
     let mut ops = Vec::with_capacity(calls + 4);
     for i in 0..calls {
         if reset_phase > 0 && i == n + reset_phase - 1 {
@@ -346,6 +349,30 @@ pub fn run(g: &mut Global) {
             let n = BIGP[(r % 14) as usize];
             let kind = ALL_KINDS[(r / 14) as usize];
             sweep_case(kind, n, s, if ph == 7 { n / 2 } else { ph })
+        },
+        &check,
+    );
+    // windows of 2^16 slots and a little more ("large periods" without a stated end: a 16-bit cursor, a u32 product
+    // of the fill count, a table with 65 536 entries): the whole warm-up and a second turn of the ring; the
+    // O(n)-per-step indicators run the warm-up and 40 calls more, for one size only
+    const HUGE: [usize; 3] = [65_536, 65_537, 70_000];
+    let thorough = g.tier == Tier::Thorough;
+    g.exhaustive(
+        "huge_windows",
+        if thorough { 22 * 3 * 2 } else { 22 },
+        &move |i| {
+            // quick: one size (65 537), the ordinary schedule, the O(n)-per-step kinds at 4 100 slots
+            let i = if thorough { i } else { i * 6 + 2 };
+            let s = [0usize, 2][(i % 2) as usize];
+            let n = HUGE[((i / 2) % 3) as usize];
+            let kind = ALL_KINDS[(i / 6) as usize];
+            let heavy = matches!(kind, Kind::Mad | Kind::Cci | Kind::Er);
+            if heavy {
+                let n = if n == 65_537 && thorough { n } else { 4099 + (n % 7) };
+                sweep_case_calls(kind, n, s, 0, n + 5, n + 40)
+            } else {
+                sweep_case_calls(kind, n, s, 0, n + 5, 2 * n + 40)
+            }
         },
         &check,
     );
